@@ -8,7 +8,8 @@ import (
 
 func TestReplay(t *testing.T) {
 	verif.ReplayMain(map[string]func(){
-		"HarnessAlias":    HarnessAlias,
-		"HarnessRawReuse": HarnessRawReuse,
+		"HarnessAlias":            HarnessAlias,
+		"HarnessRawReuse":         HarnessRawReuse,
+		"HarnessReflectSelectNil": HarnessReflectSelectNil,
 	})
 }
